@@ -143,12 +143,10 @@ func (r *armoredReader) Read(p []byte) (int, error) {
 	if len(line) > format.ColumnsPerLine {
 		return 0, r.setErr(errors.New("column limit exceeded"))
 	}
-	r.unread = r.buf[:]
-	n, err := base64.StdEncoding.Strict().Decode(r.unread, line)
+	n, err := base64.StdEncoding.Strict().Decode(r.buf[:], line)
 	if err != nil {
 		return 0, r.setErr(err)
 	}
-	r.unread = r.unread[:n]
 
 	if n < format.BytesPerLine {
 		line, err := getLine()
@@ -161,6 +159,9 @@ func (r *armoredReader) Read(p []byte) (int, error) {
 		r.setErr(drainTrailing())
 	}
 
+	// Only expose the decoded line once it is known to be acceptable, so that
+	// a Read that returned an error is never followed by a Read returning data.
+	r.unread = r.buf[:n]
 	nn := copy(p, r.unread)
 	r.unread = r.unread[nn:]
 	return nn, nil
